@@ -1,7 +1,7 @@
 SPECIFICATION Spec
 CONSTANTS
   NrSet = {5,6,7,8,9,10,12}
-  NtSet = {4,8,12,16,20,24}
-  Ops = {"residualGive", "smootherTake"}
+  NtSet = {4,6,8,10,12,16,20,24}
+  Ops = {"residualGive", "smootherTake", "xsmootherTake", "residualTake"}
   EmitTables = FALSE
 INVARIANTS EpochDisjoint AllRadialOnce AllCirclesOnce
